@@ -206,22 +206,24 @@ def rule_tables(facts, rep):
     hb = facts.body("anstyle_roff", R + "has_bright_fg")
     ok = True
     why = []
-    for fgv, want in ((("none",), False), (("some", ("ctor", "anstyle::color::Color::Ansi", ("enum", "anstyle::color::AnsiColor::BrightRed"))), True),
-                      (("some", ("ctor", "anstyle::color::Color::Ansi", ("enum", "anstyle::color::AnsiColor::Red"))), False),
-                      (("some", ("ctor", "anstyle::color::Color::Rgb", ("sym", "rgb"))), False)):
-        ev = abseval.Evaluator(facts, "anstyle_roff", {"anstyle::style::Style::get_fg_color": lambda a, fgv=fgv: fgv})
-        env = abseval.Env()
-        env[hb["params"][0]["name"]] = ("sym", "style")
-        try:
-            try:
-                r = ev.ev(hb["hir"], env)
-            except abseval.Return as rt:
-                r = rt.v
-        except Unrecognised as ex:
-            raise Unrecognised(f"has_bright_fg: {ex}")
-        if r != ("bool", want):
-            ok = False
-            why.append(f"fg={fgv}: {r}")
+    bit = {n_: v for n_, v, _ in ac.effect_consts(facts)}
+    fgs = [(("none",), False), (("some", ("ctor", "anstyle::color::Color::Rgb", ("ctor", "anstyle::color::RgbColor", ("int", 255), ("int", 0), ("int", 0)))), False),
+           (("some", ("ctor", "anstyle::color::Color::Ansi256", ("ctor", "anstyle::color::Ansi256Color", ("int", 9)))), False)]
+    fgs += [(("some", ("ctor", "anstyle::color::Color::Ansi", ("enum", "anstyle::color::AnsiColor::" + n_))), n_.startswith("Bright")) for n_ in sgr.ANSI16]
+    # the whole style is given (anstyle's getters are followed into their bodies): the answer depends on the foreground alone, whatever
+    # the effects and the other colours are
+    for fgv, want in fgs:
+        for eff in (0, bit["DIMMED"], bit["BOLD"] | bit["ITALIC"], 4095):
+            for bgv in (("none",), ("some", ("ctor", "anstyle::color::Color::Ansi", ("enum", "anstyle::color::AnsiColor::BrightRed")))):
+                style = ("rec", {"fg": fgv, "bg": bgv, "underline": ("none",), "effects": ("ctor", "anstyle::effect::Effects", ("int", eff))})
+                try:
+                    r = abseval.Evaluator(facts, "anstyle_roff", {}, inline_crates=("anstyle",)).call_fn("anstyle_roff", hb["path"], [style])
+                except Unrecognised as ex:
+                    r = ("not-evaluable", str(ex)[:80])
+                rep.count()
+                if r != ("bool", want):
+                    ok = False
+                    why.append(f"fg={str(fgv)[-40:]} effects={eff:#x}: {r}")
     rep.check(ok, "tables", hb["path"], "bright-foreground-test", f"true exactly for a bright 4-bit foreground: {why[:2]}", loc(hb))
 
 
